@@ -324,6 +324,23 @@ func genNegative(t *rapid.T, locs []c17loc) c17Probe {
 	} else {
 		cands = []neg{{"/not", "descends into a boolean schema"}}
 	}
+	if rapid.IntRange(0, 11).Draw(t, "swapdefs") == 0 {
+		// the same pointer through the other spelling of the definitions keyword, which this
+		// document does not have: `$defs` and `definitions` are two different keywords
+		other := map[string]string{"$defs": "definitions", "definitions": "$defs"}
+		segs := strings.Split(l.ptr, "/")
+		var idx []int
+		for i, sg := range segs {
+			if _, ok := other[sg]; ok && i%2 == 1 {
+				idx = append(idx, i)
+			}
+		}
+		if len(idx) > 0 {
+			i := idx[rapid.IntRange(0, len(idx)-1).Draw(t, "swapwhich")]
+			segs[i] = other[segs[i]]
+			return c17Probe{Ref: "#" + fragmentEncode(t, strings.Join(segs, "/")), Negative: true, Why: "other spelling of the definitions keyword"}
+		}
+	}
 	n := cands[rapid.IntRange(0, len(cands)-1).Draw(t, "negkind")]
 	if n.suffix == "__noslash" {
 		return c17Probe{Ref: "#" + strings.TrimPrefix(l.ptr, "/"), Negative: true, Why: "missing leading slash"}
